@@ -1,7 +1,8 @@
 (* Property C11: which harness cases lie inside the hypotheses of traceql_correct_single / traceql_correct_agg (counted into the evidence by
    checks/c11.py; the guards term_lit_ok and cond_depth are defined beside their lemmas in proofs/TraceqlEvalProofs.v).  Executable definitions only. *)
 From Coq Require Import List ZArith QArith String Ascii Bool.
-From Qryn Require Import model.TqSql model.Traceql model.TraceqlPlan model.TraceqlSem model.TraceqlCase proofs.TraceqlEvalProofs.
+From Qryn Require Import model.TqSql model.Traceql model.TraceqlPlan model.TraceqlSem model.TraceqlCase proofs.TraceqlEvalProofs
+     proofs.TraceqlChainProofs proofs.TraceqlChainPlan.
 Import ListNotations.
 (* is the case inside the hypotheses of traceql_correct_single (1) / traceql_correct_agg (2)?  0 = outside *)
 Definition theorem_scope (cs : case) : Z :=
@@ -23,3 +24,11 @@ Definition theorem_scope (cs : case) : Z :=
   end.
 Definition scope_counts (l : list case) : Z * Z :=
   (Z.of_nat (List.length (filter (fun cs => Z.eqb (theorem_scope cs) 1) l)), Z.of_nat (List.length (filter (fun cs => Z.eqb (theorem_scope cs) 2) l))).
+
+(* is the case inside the hypotheses of traceql_correct_chain (a chain of at least two selectors; chain_ok_b_sound: the boolean implies chain_ok) *)
+Definition chain_scope (cs : case) : bool :=
+  match c_mode cs, sc_tail (c_q cs) with
+  | MSearch, Some _ => chain_ok_b (c_q cs) && Z.eqb (rf_max (c_ctx cs)) 0 && Nat.leb (chain_need (c_q cs)) 13
+  | _, _ => false
+  end.
+Definition chain_count (l : list case) : Z := Z.of_nat (List.length (filter chain_scope l)).
